@@ -254,7 +254,7 @@ def multi_boundary_cases():
 
     def reads(sc, s, b, lims):
         sc.queries(s, b, window_queries(None, None, lims) + window_queries(G[2] - 500, G[5] + 500, lims)
-                   + window_queries(G[4], None, [1]) + window_queries(None, G[3] + 1, [2]))
+                   + (window_queries(G[4], None, [1]) if (s + b) % 2 else window_queries(None, G[3] + 1, [2])))
 
     def setup(sc, s, order):
         for b in order:
@@ -473,6 +473,7 @@ class StoreRun:
         self.table = {}         # peewee: (ts, dur) -> end instant SQLite prints
         self.dirty = True
         self.epoch = 0
+        self.rewrites = {}      # b -> number of writes so far that changed or removed a stored event
         self.broken = None
         self.seen = {}
         orig = st.get_events
@@ -581,6 +582,10 @@ class StoreRun:
         self.where.append(at)
         self.dirty = True
         self.epoch += 1
+        if wire[0] in (7, 8, 9) or (wire[0] == 5 and wire[2][0]) or (wire[0] == 6 and any(e[0] for e in wire[2])):
+            self.rewrites[wire[1]] = self.rewrites.get(wire[1], 0) + 1
+        elif wire[0] in (0, 2):
+            self.rewrites.pop(wire[1], None)
         return ["w", wire, res]
 
     # -- reads
@@ -639,11 +644,11 @@ class StoreRun:
         self.where.append(at)
         g = self.ghost.get(b)
         stored = None if g is None else sorted([list(v) for v in g.values()], key=lambda v: v[3])
-        return ["q", ans, stored, self.epoch, self.broken]
+        return ["q", ans, stored, self.epoch, self.broken, self.rewrites.get(b, 0)]
 
 
 def run_impl_script(case, backend, tmpdir, n):
-    """-> {"recs": one per script step (["w", wire | None, res] | ["q", answer, stored, epoch, broken]),
+    """-> {"recs": one per script step (["w", wire | None, res] | ["q", answer, stored, epoch, broken, rewrites]),
            "stores": [{"steps": concrete steps, "where": script indices, "table": [[ts, dur, end_ms] ...]} ...]}"""
     k = case["nstores"]
     script = case["script"]
